@@ -12,11 +12,12 @@ Variables I T P : Type.
 Variable ieqb : I -> I -> bool.
 Variable teqb : T -> T -> bool.
 Variable lower : T -> T.
+Variable peqb : P -> P -> bool.
 
 Notation col := (col I T P).
 Notation schema := (schema I T P).
-Notation hstep := (hstep ieqb teqb lower).
-Notation hrun := (hrun ieqb teqb lower).
+Notation hstep := (hstep ieqb teqb lower peqb).
+Notation hrun := (hrun ieqb teqb lower peqb).
 Notation step := (step ieqb teqb lower).
 Notation run := (run ieqb teqb lower).
 
@@ -25,6 +26,9 @@ Definition plain (hops : list (hop T)) : list (op T) :=
   flat_map (fun h => match h with HOp o => [o] | _ => [] end) hops.
 
 Definition is_plain (h : hop T) : bool := match h with HOp _ => true | _ => false end.
+(* the in-place mutations by the caller (round 3) *)
+Definition mutates (h : hop T) : bool :=
+  match h with HRename _ _ _ | HSetAliases _ _ _ | HInsertFrom _ _ _ _ | HDelAt _ _ => true | _ => false end.
 Definition is_next (k : nat) (h : hop T) : bool := match h with HNext j => Nat.eqb j k | _ => false end.
 
 (* the entries of a per-call list [xs] that belong to the calls satisfying [f] *)
@@ -63,39 +67,38 @@ Lemma hstep_plain (st : list schema) (its : iters T) (o : op T) :
 Proof. simpl. destruct (step st o) as (st', x). reflexivity. Qed.
 
 Lemma hstep_iter_store (st : list schema) (its : iters T) (h : hop T) :
-  is_plain h = false -> fst (fst (hstep (st, its) h)) = st.
+  is_plain h = false -> mutates h = false -> fst (fst (hstep (st, its) h)) = st.
 Proof.
-  destruct h as [o|i|k]; simpl; [discriminate| |]; intros _.
+  destruct h as [o|i|k|i ci keys|i q n|i q al|i p j q|i p]; simpl; try discriminate; intros _ _.
   - destruct (nth_error st i); reflexivity.
   - destruct (nth_error its k) as [[|n r]|]; reflexivity.
+  - destruct (nth_error st i); reflexivity.
 Qed.
 
 (* the store of a history with iterators is the store of its plain calls, and the plain calls return
    (and leave behind, in every schema) what they do without the iterators *)
 Lemma hrun_store (hops : list (hop T)) : forall (st : list schema) (its : iters T),
+  forallb (fun h => negb (mutates h)) hops = true ->
   fst (fst (hrun (st, its) hops)) = fst (run st (plain hops)) /\
   select is_plain hops (snd (hrun (st, its) hops)) = snd (run st (plain hops)).
 Proof.
-  induction hops as [|h hops IH]; intros st its; [split; reflexivity|].
-  destruct h as [o|i|k].
-  - cbn [C17.hrun plain flat_map app C17.run]. rewrite hstep_plain.
+  induction hops as [|h hops IH]; intros st its Hm; [split; reflexivity|].
+  cbn [forallb] in Hm. apply andb_true_iff in Hm. destruct Hm as (Hh & Hm). apply negb_true_iff in Hh.
+  destruct (is_plain h) eqn:Ep.
+  - destruct h as [o| | | | | | |]; try discriminate.
+    cbn [C17.hrun plain flat_map app C17.run]. rewrite hstep_plain.
     destruct (step st o) as (st1, x) eqn:Es. cbn [fst snd].
-    fold (plain hops). pose proof (IH st1 its) as (IH1 & IH2).
+    fold (plain hops). pose proof (IH st1 its Hm) as (IH1 & IH2).
     unfold store in *. destruct (hrun (st1, its) hops) as (sti2, xs) eqn:Eh.
     destruct (run st1 (plain hops)) as (st2, ys) eqn:Er.
     cbn [fst snd select is_plain] in *. split; [exact IH1|]. rewrite IH2. reflexivity.
-  - cbn [C17.hrun plain flat_map app]. fold (plain hops).
-    destruct (hstep (st, its) (HOpen i)) as (sti1, x) eqn:Es.
-    assert (E1 : fst sti1 = st) by (pose proof (hstep_iter_store st its (HOpen i) eq_refl) as F; rewrite Es in F; exact F).
+  - assert (Epl : plain (h :: hops) = plain hops) by (destruct h; try discriminate; reflexivity).
+    rewrite Epl. cbn [C17.hrun].
+    destruct (hstep (st, its) h) as (sti1, x) eqn:Es.
+    assert (E1 : fst sti1 = st) by (pose proof (hstep_iter_store st its h Ep Hh) as F; rewrite Es in F; exact F).
     destruct sti1 as (st1, its1). cbn [fst] in E1. subst st1.
-    pose proof (IH st its1) as IH'. unfold store in *. destruct (hrun (st, its1) hops) as (sti2, xs) eqn:Eh.
-    cbn [fst snd select is_plain] in *. exact IH'.
-  - cbn [C17.hrun plain flat_map app]. fold (plain hops).
-    destruct (hstep (st, its) (HNext k)) as (sti1, x) eqn:Es.
-    assert (E1 : fst sti1 = st) by (pose proof (hstep_iter_store st its (HNext k) eq_refl) as F; rewrite Es in F; exact F).
-    destruct sti1 as (st1, its1). cbn [fst] in E1. subst st1.
-    pose proof (IH st its1) as IH'. unfold store in *. destruct (hrun (st, its1) hops) as (sti2, xs) eqn:Eh.
-    cbn [fst snd select is_plain] in *. exact IH'.
+    pose proof (IH st its1 Hm) as IH'. unfold store in *. destruct (hrun (st, its1) hops) as (sti2, xs) eqn:Eh.
+    cbn [fst snd select] in *. rewrite Ep. exact IH'.
 Qed.
 
 (* one call seen from an open iterator k with remaining names l: a next() on k yields the head and
@@ -111,7 +114,9 @@ Lemma hstep_iterator (st : list schema) (its : iters T) (h : hop T) (k : nat) (l
   else nth_error (snd (fst (hstep (st, its) h))) k = Some l.
 Proof.
   intros Hk. assert (Hlt : k < length its) by (apply nth_error_Some; rewrite Hk; discriminate).
-  destruct h as [o|i|j]; cbn [is_next].
+  destruct h as [o|i|j|i ci keys|i q n|i q al|i p j q|i p]; cbn [is_next];
+    [ | | | simpl; unfold C17.with_col;
+            repeat match goal with |- context [match ?x with _ => _ end] => destruct x end; exact Hk .. ].
   - rewrite hstep_plain. exact Hk.
   - simpl. destruct (nth_error st i); simpl; [|exact Hk]. rewrite nth_error_app1; assumption.
   - destruct (Nat.eqb j k) eqn:E.
@@ -224,6 +229,13 @@ Proof.
   unfold loop_hops in *. cbn [flat_map]. destruct (pred n); cbn [app filter is_next]; rewrite Nat.eqb_refl; cbn [length]; rewrite IH; reflexivity.
 Qed.
 
+Lemma loop_no_mutation (pred : T -> bool) (i k : nat) (names : list T) :
+  forallb (fun h => negb (mutates h)) (loop_hops pred i k names) = true.
+Proof.
+  induction names as [|n r IH]; [reflexivity|].
+  unfold loop_hops in *. cbn [flat_map]. destruct (pred n); cbn [app forallb mutates negb andb]; exact IH.
+Qed.
+
 Lemma set_nth_id (st : list schema) : forall i s, nth_error st i = Some s -> set_nth st i s = st.
 Proof.
   induction st as [|x st IH]; intros [|i] s H; simpl in *; try discriminate.
@@ -270,7 +282,9 @@ Lemma remove_while_iterating (pred : T -> bool) (st : list schema) (its : iters 
     map (fun n => XItem n) (column_names s) ++ [XStop].
 Proof.
   intros Hs k hops. split.
-  - rewrite (proj1 (hrun_store hops st its)). subst hops.
+  - assert (Hm : forallb (fun h => negb (mutates h)) hops = true).
+    { subst hops. cbn [forallb mutates negb andb]. rewrite forallb_app, loop_no_mutation. reflexivity. }
+    rewrite (proj1 (hrun_store hops st its Hm)). subst hops.
     change (plain (HOpen i :: loop_hops pred i k (column_names s) ++ [HNext k]))
       with (plain (loop_hops pred i k (column_names s) ++ [HNext k])).
     unfold plain at 1. rewrite flat_map_app. fold (plain (loop_hops pred i k (column_names s))).
@@ -288,5 +302,5 @@ End WithTEq.
 
 End Iter.
 
-Arguments plain {T}. Arguments is_plain {T}. Arguments is_next {T}. Arguments select {T A}.
+Arguments plain {T}. Arguments is_plain {T}. Arguments is_next {T}. Arguments select {T A}. Arguments mutates {T}.
 Arguments expected_nexts {T P}. Arguments loop_hops {T}.
